@@ -131,6 +131,60 @@ def gen(seed, tier):
     return hs, meta
 
 
+def gen_reuse(seed, tier):
+    """slot re-use: a first session sends k upstream packets and falls silent; after the 60 s time-out another client gets the slot
+    and sends a multi-fragment upstream packet whose later fragments each begin with the framing byte -- if anything of the first
+    session's reassembly state survived (sequence number, fragment number, buffer), a piece of the packet would pass for a packet"""
+    rng = vlib.rng_for(seed, 'c01-reuse')
+    hs, meta = [], []
+    for k in ([1, 2, 3, 7, 8, 9] if tier == 'quick' else list(range(1, 18))):
+        for pieces in (2, 3):
+            g = srvlib.HistGen(rng, adversarial=0.0)
+            g.no_case_relay = True
+            g.check_ip = 1
+            g.set_net('10.0.0.1', 27)
+            g.qtype = rng.choice(g.QTYPES)
+            a = Peer(g, (4, bytes([192, 0, 2, 40]), 4400))
+            b = Peer(g, (4, bytes([198, 51, 100, 41]), 4401))
+            offered = []
+            g.version(a.s)
+            g.login(a.s)
+            for j in range(k):
+                f = frame(rng, rng.choice([40, 60]), 0x08080808, 0xA0 + (j & 15))
+                upstream(g, a, f, pieces=1)
+                offered.append(f)
+            g.now += rng.choice([61, 75, 200])
+            g.version(b.s)
+            g.login(b.s)
+            f = bytearray(frame(rng, 120, 0x08080808, 0xBB))
+            step = (len(f) + 1 + pieces - 1) // pieces
+            for q in range(1, pieces):
+                f[q * step - 1] = 0x5A          # byte q*step of the framed stream: the first byte of fragment q
+            upstream(g, b, bytes(f), pieces=pieces)
+            offered.append(bytes(f))
+            hs.append('H ' + g.cfg() + ' ; ' + ' ; '.join(g.events))
+            meta.append(dict(offered=offered, k=k, pieces=pieces))
+    return hs, meta
+
+
+def tun_monitor(m, out):
+    """first event whose tun write is not an offered frame"""
+    ok = set(m['offered'])
+    n = 0
+    for i, seg in enumerate(out.split(' ; ')):
+        t = seg.split(' | ')[0].split(' T', 1)
+        if len(t) != 2:
+            continue
+        toks = t[1].split(' ')
+        for hx in toks[1:1 + int(toks[0])] if toks[0].isdigit() else []:
+            w = bytes.fromhex(hx) if hx != '-' else b''
+            if w in ok:
+                n += 1
+            else:
+                return (i, w), n
+    return None, n
+
+
 def monitor(h, m, out):
     """returns (event index, text) for the first stream reaching the recipient that is not an offered frame, else None;
     and the number of offered frames delivered"""
@@ -214,6 +268,35 @@ def stage(rep, ctx, key='forwarding'):
             k = next((j for j, (x, y) in enumerate(zip(ea, eb)) if x != y), min(len(ea), len(eb)))
             ctx.broken.append(('correspondence', 'forwarding stage: server model and the real server disagree at event %d of %r: impl=%r model=%r' % (
                 k, ' ; '.join(hs[d].split(' ; ')[:k + 2])[-2500:], ea[k][:300] if k < len(ea) else '', eb[k][:300] if k < len(eb) else '')))
+    # slot re-use
+    hs2, meta2 = gen_reuse(rep.seed, rep.tier)
+    os.environ['VERIF_FULL'] = '1'
+    try:
+        rc3, impl3, err3 = vlib.parallel_run_cases(ctx.exe['srv'], hs2, ctx.work, 'reuse-impl')
+        mod3 = vlib.parallel_run_cases(model, hs2, ctx.work, 'reuse-model')[1] if ok else None
+    finally:
+        os.environ.pop('VERIF_FULL', None)
+    wr = 0
+    for h, m, o in zip(hs2, meta2, impl3):
+        bad, n = tun_monitor(m, o)
+        wr += n
+        if bad and not rep.violations:
+            i, w = bad
+            evs = h.split(' ; ')
+            rep.add_violation(key + ':reuse-fabricated', 'a slot re-used after the 60 s time-out (first session sent %d packets), the new client sends one packet in %d '
+                              'fragments: the server writes %d bytes to its tun device that no client sent as a packet (a piece of the new packet: '
+                              'reassembly state of the previous session survived)' % (m['k'], m['pieces'], len(w)),
+                              dict(kind='history', driver='srv', case=' ; '.join(evs[:i + 2]), event=i, observed=o.split(' ; ')[i][:600],
+                                   expected='only whole frames offered by a client'))
+    if mod3 is not None:
+        d3 = vlib.first_diff(hs2, impl3, mod3)
+        if d3 is not None:
+            ea, eb = impl3[d3].split(' ; '), mod3[d3].split(' ; ')
+            k3 = next((j for j, (x, y) in enumerate(zip(ea, eb)) if x != y), min(len(ea), len(eb)))
+            ctx.broken.append(('correspondence', 'slot re-use histories: server model and the real server disagree at event %d of %r: impl=%r model=%r' % (
+                k3, ' ; '.join(hs2[d3].split(' ; ')[:k3 + 2])[-2000:], ea[k3][:300] if k3 < len(ea) else '', eb[k3][:300] if k3 < len(eb) else '')))
+    rep.cov['slot_reuse'] = dict(histories=len(hs2), frames_written_to_tun=wr, frames_offered=sum(len(m['offered']) for m in meta2))
+    rep.cov['evaluations'] = rep.cov.get('evaluations', 0) + sum(h.count(' ; ') for h in hs2)
     rep.cov['forwarding'] = dict(histories=len(hs), frames_offered_to_recipients=want, frames_reassembled_by_recipients=tot,
                                  three_session_histories=sum(1 for m in meta if m['npeers'] == 3))
     if want and tot * 2 < want:
